@@ -91,6 +91,30 @@ def pyAdd : Val → Val → R Val := pyArith .add
 def pySub : Val → Val → R Val := pyArith .sub
 def pyMul : Val → Val → R Val := pyArith .mul
 
+/-- `x ** y` on two Python numbers.  For a negative base with a non-integral exponent CPython returns a complex number; that
+    is outside the model and reported as the runtime error (`Num.pyPow`) — unreachable behind `strict_pow`'s guard. -/
+def pyPowOp : Val → Val → R Val
+  | .num x, .num y => liftE (pyPow x y) |>.map .num
+  | _, _ => bad
+
+/-- `math.sqrt(x)`: `ValueError` ("math domain error") for a negative number, else the square root of `float(x)` -/
+def mathSqrt : Val → R Val
+  | .num x => if cmpLt x (.int 0) then pyExn "ValueError" else liftE (do let f ← x.toFloat; fin (Float.sqrt f)) |>.map .num
+  | _ => bad
+
+/-- the comparison builtins `operator.lt / le / eq / ne / gt / ge` on two Python numbers (exact across kinds); the result
+    is a Python bool -/
+def pyOperatorCmp (name : String) (_rec : Disp) : Val → Val → R Bool
+  | .num x, .num y => .ok (cmpByName name x y)
+  | _, _ => bad
+
+/-- the one-argument builtins Ka registers directly (`abs`, `round`, `int`, `float`, `math.floor`, `math.ceil`, `math.sin`,
+    `math.cos`, `math.tan`, `operator.pos`, `operator.neg`) on a Python number, as modelled in `Model/Num.lean` /
+    `Model/Elementary.lean` -/
+def pyBuiltin1 (f : Elementary.Fn) (_rec : Disp) : Val → R Val
+  | .num x => liftE (Elementary.body f x) |>.map .num
+  | _ => bad
+
 /-- `Interval(a, b)`: stores its two arguments; the model's Interval holds numbers -/
 def mkInterval : Val → Val → R Val
   | .num a, .num b => .ok (.intv a b)
